@@ -99,6 +99,9 @@ func c08Invalid(r *rand.Rand, class int) *cfg.Config {
 			c.Params = append(c.Params, cfg.KV{K: fmt.Sprintf("bad..p%d", i), V: cfg.Int(1)})
 		}
 	case 2: // missing references
+		// one pattern naming several undefined parameters, some of them more than once
+		c.Params = append(c.Params, cfg.KV{K: "manyMissing", V: cfg.Str("%m1%-%m2%-%m3%-%m4%-%m5%-%m6%-%m7%.%m1%.%m3%")})
+		c.Services[0].Args = append(c.Services[0].Args, cfg.Str("%n1%%n2%%n3%%n4%%n5%%n6%%n2%%n1%"), cfg.Str("@x1"), cfg.Str("@x2"), cfg.Str("@x1"))
 		for i := 0; i < 7; i++ {
 			gen.Inject(r, c, "missing-param", i)
 			gen.Inject(r, c, "missing-service", 10+i)
